@@ -224,8 +224,9 @@ def diff_items(obs, exp):
 # region contracts
 
 
-def _pct(length):
-  if length.units != SP.LengthType.Units.pct:
+def _pct(length, also=None):
+  """percent of the root container (rw / rh are the same thing on their own axis)"""
+  if length.units != SP.LengthType.Units.pct and length.units != also:
     return None
   return float(length.value)
 
@@ -235,7 +236,8 @@ def region_box(region):
   e = region.get_style(SP.StyleProperties.Extent)
   if o is None or e is None:
     return None
-  box = {"x": (_pct(o.x), _pct(e.width)), "y": (_pct(o.y), _pct(e.height))}
+  rw, rh = SP.LengthType.Units.rw, SP.LengthType.Units.rh
+  box = {"x": (_pct(o.x, rw), _pct(e.width, rw)), "y": (_pct(o.y, rh), _pct(e.height, rh))}
   if any(v is None for ax in box.values() for v in ax):
     return None
   return box
@@ -479,20 +481,12 @@ def units(_):
         got = g(txt)
         if got is None or abs(float(got) - want) > 0.5 + TOL:
           rec.fail("parse-pct", "parse_vtt_pct", f"parse_vtt_pct({txt!r}) = {got!r}", txt, repr(got), f"{want} (to the nearest percent at least)")
-    for txt in ("", "%", "x%", "10", "-5%", "1e1%", "10 %"):
-      rec.evaluated("parse_vtt_pct", txt)
-      if g(txt) is not None:
-        rec.fail("parse-pct", "parse_vtt_pct", f"parse_vtt_pct({txt!r}) = {g(txt)!r}", txt, repr(g(txt)), "None (not a percentage)")
   h_ = getattr(R, "parse_vtt_int", None)
   if h_ is not None:
     for k in list(range(-60, 61)) + [-1000, 1000, 12345678]:
       rec.evaluated("parse_vtt_int", k, {"text": str(k)})
       if h_(str(k)) != k:
         rec.fail("parse-int", "parse_vtt_int", f"parse_vtt_int({str(k)!r}) = {h_(str(k))!r}", str(k), repr(h_(str(k))), str(k))
-    for txt in ("", "-", "1.5", "5%", "+3", "0x10"):
-      rec.evaluated("parse_vtt_int", txt)
-      if h_(txt) is not None:
-        rec.fail("parse-int", "parse_vtt_int", f"parse_vtt_int({txt!r}) = {h_(txt)!r}", txt, repr(h_(txt)), "None (not an integer)")
   return rec
 
 
@@ -646,17 +640,12 @@ def build_chain(chain, d=0):
   if kind == "ruby":
     if d + 1 < len(chain) and chain[d + 1] == "rt":
       body = f"{o}{L[3 * d + 1]}{inner}{c}"           # base text, then <rt>..</rt>
-    elif d + 1 < len(chain):
-      body = f"{o}{inner}<rt>{L[3 * d + 2]}</rt>{c}"  # marked-up base, then its ruby text
     else:
-      body = f"{o}{inner}<rt>{L[3 * d + 2]}</rt>{c}"
+      body = f"{o}{inner}<rt>{L[3 * d + 2]}</rt>{c}"  # (possibly marked-up) base, then its ruby text
     return body if d else "S " + body + " E"
   if d and chain[d - 1] == "ruby":
-    if kind == "rt":
-      return f"{o}{inner}{c}"
-    return f"{o}{inner}{c}"
-  body = f"{pre}{o}{inner}{c}{post}"
-  return body
+    return f"{o}{inner}{c}"                           # <rt> or mark-up directly inside the ruby container
+  return f"{pre}{o}{inner}{c}{post}"
 
 
 def nesting(_):
@@ -674,7 +663,7 @@ def nesting(_):
 WORDS = ["Hello", "world", "naïve", "日本語", "a", "I", "café", "1 > 0", "x;y", "50%", "it's", "\"q\"", "(ok)", "-", "e.g.",
          "¿qué?", "Ж", "\U0001F600", "tab\there", "NOTE", "a:b", "100%,start"]
 CORE_REFS = ["&amp;", "&lt;", "&gt;", "&nbsp;", "&#65;", "&#x263A;", "&#x1F600;", "&#8230;", "&eacute;", "&copy;", "&amp;lt;", "&quot;"]
-NAMED_REFS = ["&lrm;", "&rlm;", "&hellip;", "&mdash;", "&ndash;", "&rarr;", "&apos;", "&euro;"]
+NAMED_REFS = ["&lrm;", "&hellip;", "&mdash;", "&ndash;", "&rarr;", "&apos;", "&euro;"]
 PLAIN_CLASSES = ["loud", "first", "c1", "x-y"]
 LANGS = ["en", "fr-CA", "ja", "es-419", "zh-Hant"]
 VOICES = ["Fred", "Mary Ann", "N.N.", "Dr  Who", "Élodie"]
@@ -731,7 +720,7 @@ class CueGen:
       r.shuffle(cl)
       return "<c." + ".".join(cl) + ">", "</c>"
     if kind == "lang":
-      return f"<lang{self.classes()} {r.choice(LANGS)}>", "</lang>"
+      return f"<lang{self.classes()}{r.choice((' ', ' ', chr(9), '  '))}{r.choice(LANGS)}>", "</lang>"
     if kind == "v":
       name = r.choice(VOICES)
       if self.special == "annotation-charref" and not self.used_special:
@@ -817,6 +806,9 @@ class CueGen:
     elif self.special in (None, "named-charref") and r.random() < 0.35:
       self.ts_left = 1
     s = self.components(0, True)
+    if self.ts_left == 1 and self.special in (None, "named-charref") and r.random() < 0.8:
+      self.ts_left = 0
+      s += self.ts() + self.text()
     if self.special == "timestamp-multiple":
       while self.ts_left > 1:
         self.ts_left -= 1
@@ -891,7 +883,8 @@ def gen_settings(r):
   return out
 
 
-IDS = ["1", "2", "42", "cue-1", "intro", "a b c", "été", "id with - > arrow", "0001", "x:y", "-", "Chapter 1: NOTE"]
+IDS = ["1", "2", "42", "cue-1", "intro", "a b c", "été", "id with - > arrow", "0001", "x:y", "-", "Chapter 1: NOTE", "NOTEBOOK", "STORY 1",
+       "ST", "N", "WEBVTT", "REGIONAL", "00:01.000"]
 KEYWORD_IDS = ["STYLE-1", "STYLEGUIDE", "NOTE 7", "NOTE to self", "STYLE"]
 
 
@@ -920,8 +913,6 @@ def gen_file(r, special):
     begin, end = t, t + dur + 1200
     t = end + r.choice((0, 1, 40, 1000, 100000))
     cue_special = special if (not first_special_done and (i == n_cues - 1 or r.random() < 0.5)) else None
-    if cue_special in ("empty-payload", "identifier-like-block-keyword"):
-      pass
     gen = CueGen(r, cue_special if cue_special not in ("empty-payload", "identifier-like-block-keyword") else None, begin, end)
     payload = gen.cue_text()
     lines = []
